@@ -110,7 +110,7 @@ CHECKS = {
              "results (hence every bufsize) followed by any closes/timeouts/OSErrors, every reader configuration and "
              "parser behaviour, the reader over the socket wrapper delivers the same items as over a file. Partial for "
              "the runtime: kernel TCP delivery and the sender thread are exercised (socketpair), not modelled.",
-        note=READER_NOTE + " The scripted socket subclasses socket.socket; recv(n) delivers at most n bytes.",
+        note=READER_NOTE + " The scripted socket subclasses socket.socket; recv(n) delivers at most n bytes." + READER_SRC,
         ref="DESIGN.md §6 C10"),
     "C11": dict(
         technique="Coq proof (list induction over the framing trace: interp under mask F = filter of interp under mask 7) + correspondence over all 8 masks",
